@@ -19,7 +19,9 @@ Patterns == UNION {{Pattern(b) : b \in [1..n -> BOOLEAN]} : n \in 0..MaxLen}
 \* three sorts of slot: a value, nil, and a TYPED nil pointer (an element like any other: not a gap)
 TNilLeaf == TrLeafT("tnil", <<"~">>)
 Pattern3(ks) == [i \in 1..Len(ks) |-> IF ks[i] = "v" THEN Lf(i) ELSE IF ks[i] = "n" THEN TrNil ELSE TNilLeaf]
-Patterns3 == UNION {{Pattern3(b) : b \in [1..n -> {"v", "n", "t"}]} : n \in 0..MaxLen}
+\* (TLC evaluates constant definitions eagerly: the three-valued patterns are only built for the family that uses them)
+Max3 == IF FAMILY = "tnil" THEN MaxLen ELSE 0
+Patterns3 == UNION {{Pattern3(b) : b \in [1..n -> {"v", "n", "t"}]} : n \in 0..Max3}
 
 IdxOpts == {<<FALSE, FALSE>>, <<TRUE, FALSE>>, <<FALSE, TRUE>>, <<TRUE, TRUE>>}
 PStack(es, o) == [TrStk("AND", es) EXCEPT !.neg = o[1], !.fwd = o[2]]
